@@ -303,8 +303,12 @@ func b19DigitFree(v string) bool { return !strings.ContainsAny(v, "0123456789.")
 
 func b19NumBad(b *b19Block, k string) bool {
 	vs := b.vals(k)
+	allFree := true
 	for _, v := range vs {
-		if !b19Canonical(v) && !(b19DigitFree(v) && len(vs) == 1) {
+		allFree = allFree && b19DigitFree(v)
+	}
+	for _, v := range vs {
+		if !b19Canonical(v) && !allFree {
 			return true
 		}
 	}
